@@ -337,6 +337,73 @@ static std::vector<Hom> hom_catalogue() {
     return H;
 }
 
+// ------------------------------------------------------------------ arguments are inputs: a call must not modify the arrays it is given
+// (they are passed by const reference; a transform done "in place" on the caller's buffer, a scratch that aliases the input or a
+// normalisation applied to the argument itself would change the caller's data)
+struct Imm {
+    std::string prop, name;
+    std::function<std::string()> f;   // "" = every argument is bit-identical after the call(s), else what changed
+};
+template<class A>
+static bool same_arr(const A& a, const A& b) {
+    return a.size() == b.size() && (a.size() == 0 || memcmp(a.data(), b.data(), sizeof(a[0]) * (size_t)a.size()) == 0);
+}
+#define IM(...) []() -> std::string { __VA_ARGS__ return ""; }
+#define KEEP(x, call)                                                              \
+    {                                                                              \
+        auto _c = x;                                                               \
+        const void* _p = (const void*)x.data();                                    \
+        try {                                                                      \
+            call;                                                                  \
+        } catch (const std::exception&) {                                          \
+        }                                                                          \
+        if (!same_arr(x, _c) || (const void*)x.data() != _p) return std::string(#call) + " modified its argument " #x; \
+    }
+static std::vector<Imm> imm_catalogue() {
+    std::vector<Imm> I;
+    auto add = [&](const char* prop, const char* name, std::function<std::string()> f) { I.push_back(Imm{prop, name, std::move(f)}); };
+    add("C01,C10", "transforms", IM(auto c = cs(16, 1, 1.0); auto d = cs(53, 2, 1.0); auto e = cs(12, 3, 1.0); auto r = rs(30, 4, 1.0); auto q = rs(15, 5, 1.0);
+                                   KEEP(c, (void)fft(c)) KEEP(d, (void)fft(d)) KEEP(e, (void)fft(e)) KEEP(r, (void)rfft(r)) KEEP(q, (void)fft(q)) KEEP(e, (void)fft(e, 16)) KEEP(e, (void)fft(e, 8))
+                                   KEEP(c, FftPlan p(16); (void)p.solve(c)) KEEP(r, FftPlanR p(30); (void)p.solve(r)) KEEP(e, (void)czt(e, 7, expj(-2 * pi / 9), cmplx_t(0.9, 0.2)))));
+    add("C02", "inverse transforms", IM(auto c = cs(16, 1, 1.0); auto d = cs(53, 2, 1.0); auto h = cs(7, 3, 1.0); auto r = rs(40, 4, 1.0);
+                                        KEEP(c, (void)ifft(c)) KEEP(d, (void)ifft(d)) KEEP(h, (void)irfft(h, 12)) KEEP(h, (void)irfft(h, 13)) KEEP(c, (void)irfft(c)) KEEP(r, (void)stft(r, 8))
+                                        auto S = stft(r, 8); auto S0 = S; (void)istft(S, 8); for (size_t i = 0; i < S.size(); ++i) if (!same_arr(S[i], S0[i])) return std::string("istft modified its spectrogram argument");));
+    add("C07,C06", "filters / correlation", IM(auto h = rs(9, 1, 1.0); auto x = rs(64, 2, 1.0); auto hc = cs(6, 3, 1.0); auto xc = cs(30, 4, 1.0); auto a = rs(20, 5, 1.0); auto b = rs(9, 6, 1.0);
+                                               KEEP(x, FirFilterR f(h); (void)f.process(x)) KEEP(h, FirFilterR f(h); (void)f.process(x)) KEEP(x, FftFilter f(h); (void)f.process(x)) KEEP(h, FftFilter f(h); (void)f.process(x))
+                                               KEEP(xc, FirFilterC f(hc); (void)f.process(xc)) KEEP(a, (void)xcorr(a, b)) KEEP(b, (void)xcorr(a, b)) KEEP(a, (void)xcorr(a)) KEEP(xc, (void)xcorr(xc, xc))
+                                               KEEP(a, (void)FirFilterR::conv(a, b)) KEEP(b, (void)FirFilterR::conv(a, b))));
+    add("C08,C06", "resample / converters", IM(auto x = rs(30, 1, 1.0); auto h = rs(13, 2, 1.0);
+                                               KEEP(x, (void)resample(x, 3, 2)) KEEP(x, (void)resample(x, 2, 3)) KEEP(x, FIRRateConverter f(2, 3); (void)f.process(x)) KEEP(x, FIRInterpolator f(3); (void)f.process(x))
+                                               KEEP(x, FIRDecimator f(3); (void)f.process(x)) KEEP(x, FIRResampler f(3, 2); (void)f.process(x)) KEEP(h, FIRDecimator f(3, h); (void)f.process(x)) KEEP(h, (void)resample(x, 3, 2, h))));
+    add("C11", "designs", IM(auto w = abs(rs(13, 1, 1.0)) + 0.1; KEEP(w, (void)fir1(12, 0.3, FilterType::Low, w)) KEEP(w, (void)fir1(12, 0.2, 0.5, FilterType::Bandpass, w))));
+    add("C13", "spectra", IM(auto x = rs(96, 1, 1.0); auto y = rs(96, 2, 1.0); auto z = cs(64, 3, 1.0); auto w = window::hann(16);
+                             KEEP(x, (void)welch(x, 16)) KEEP(x, (void)welch(x, w, 4, 32)) KEEP(w, (void)welch(x, w, 4, 32)) KEEP(z, (void)welch(z, 16)) KEEP(x, (void)mscohere(x, y, 16)) KEEP(y, (void)mscohere(x, y, 16))
+                             KEEP(w, (void)mscohere(x, y, w, 4, 16))));
+    add("C14,C06", "analytic", IM(auto x = rs(24, 1, 1.0); auto c = cs(40, 2, 1.0); auto l = rs(80, 3, 1.0);
+                                  KEEP(x, (void)hilbert(x)) KEEP(x, (void)hilbert(x, 32)) KEEP(x, (void)hilbert(x, 16)) KEEP(l, HilbertFilter f(31, 0.05); (void)f.process(l)) KEEP(c, Tuner t(8, 1.25); (void)t.process(c))));
+    add("C16,C06", "order statistics", IM(auto x = ps(12, 1, 1.0); auto y = ps(12, 2, 1.0);
+                                          KEEP(x, (void)sort(x)) KEEP(x, (void)sort(x, Direction::Descend)) KEEP(x, (void)median(x)) KEEP(x, (void)medfilt(x, 5)) KEEP(x, MedianFilter m(5); (void)m.process(x))
+                                          KEEP(x, (void)corr(x, y, Correlation::Pearson)) KEEP(y, (void)corr(x, y, Correlation::Spearman)) KEEP(x, (void)corr(x, y, Correlation::Kendall)) KEEP(y, (void)corr(x, y, Correlation::Kendall))));
+    add("C17", "elementary / reductions", IM(auto x = rs(17, 1, 1.0); auto z = cs(17, 2, 1.0);
+                                             KEEP(x, (void)sum(x); (void)mean(x); (void)stddev(x); (void)rms(x); (void)norm(x); (void)max(x); (void)argmax(x); (void)cumsum(x); (void)cumsum(x, Direction::Reverse))
+                                             KEEP(z, (void)sum(z); (void)rms(z); (void)abs(z); (void)angle(z); (void)exp(z); (void)power(z, 2.5); (void)power(z, -2); (void)tanh(z); (void)round(z))
+                                             KEEP(x, (void)exp(x); (void)expj(x); (void)tanh(x); (void)power(x, 2); (void)power(2.0, x); (void)pow2db(abs(x) + 1); (void)db2mag(x); (void)upsample(x, 3); (void)downsample(x, 3, 1);
+                                                  (void)repelem(x, 2); (void)delayseq(x, 3); (void)flip(x); (void)zeropad(x, 30))));
+    add("C18", "delay estimators", IM(auto x = rs(64, 1, 1.0); auto y = delayseq(x, 5); auto c = cs(64, 2, 1.0); auto d = delayseq(c, 3);
+                                      KEEP(x, (void)finddelay(x, y)) KEEP(y, (void)finddelay(x, y)) KEEP(x, (void)gccphat(y, x, 8000)) KEEP(y, (void)gccphat(y, x, 8000)) KEEP(c, (void)finddelay(c, d))
+                                      KEEP(c, PreambleDetector p(cs(16, 3, 1.0), 0.5); arr_cmplx s((int)p.frame_len()); (void)p.process(s); (void)c)));
+    add("C19", "measurements / noise", IM(arr_real x(2048); for (int i = 0; i < 2048; ++i) x[i] = std::sin(2 * pi * 200.3 * i / 2048) + 1e-3 * lcg_val(1, (uint64_t)i); auto c = cs(40, 2, 1.0);
+                                          KEEP(x, (void)snr(x)) KEEP(x, (void)sinad(x)) KEEP(x, (void)thd(x)) KEEP(x, (void)awgn(x, 10)) KEEP(c, (void)awgn(c, 3))));
+    add("C20,C06", "dynamics", IM(auto x = rs(200, 1, 1.0); auto c = cs(100, 2, 1.0);
+                                  KEEP(x, Compressor p(8000, -20.0, 4, 6.0, 0.001, 0.01); (void)p.process(x)) KEEP(x, Limiter p(8000, -15.0, 4.0, 0.0, 0.002); (void)p.process(x))
+                                  KEEP(x, NoiseGate p(8000, -12.0, 0.001, 0.002, 0.002); (void)p.process(x)) KEEP(x, Agc p(1.0, 60.0, 10); (void)p.process(x)) KEEP(c, Agc p(1.0, 60.0, 10); (void)p.process(c))));
+    add("C12,C06", "adaptive filters", IM(auto x = rs(60, 1, 1.0); auto d = rs(60, 2, 1.0); auto xc = cs(40, 3, 1.0); auto dc = cs(40, 4, 1.0);
+                                          KEEP(x, LmsFilterR f(4, 0.05, LmsType::LMS, 0.999); (void)f.process(x, d)) KEEP(d, LmsFilterR f(4, 0.5, LmsType::NLMS, 1.0); (void)f.process(x, d))
+                                          KEEP(x, RlsFilterR f(4, 0.98, 10.0); (void)f.process(x, d)) KEEP(d, RlsFilterR f(4, 0.98, 10.0); (void)f.process(x, d)) KEEP(xc, RlsFilterC f(4, 0.95, 1.0); (void)f.process(xc, dc))
+                                          KEEP(dc, LmsFilterC f(4, 0.5, LmsType::NLMS, 0.99); (void)f.process(xc, dc))));
+    return I;
+}
+
 int main(int argc, char** argv) {
     std::string prop = "C10";
     for (int i = 1; i + 1 < argc; ++i)
@@ -408,6 +475,19 @@ int main(int argc, char** argv) {
         ctx.transitions += 3 * ctx.checks[chk].evals;
         ctx.state(fnv(chk));
         (void)o;
+    }
+    // ---- arguments are left untouched
+    for (auto& im : imm_catalogue()) {
+        if (("," + im.prop + ",").find("," + prop + ",") == std::string::npos) continue;
+        std::string chk = "inputs." + im.name;
+        if (!ctx.take(chk.c_str(), P().kv("fn", im.name))) continue;
+        ctx.nontrivial();
+        forked(ctx, im.name.c_str(), 120.0, [&](ChildCtx& c) {
+            ++c.evals;
+            std::string e = im.f();
+            if (!e.empty()) c.fail(im.name.c_str(), e, "arguments passed by const reference are bit-identical (and at the same address) after the call");
+        });
+        ctx.state(fnv(chk));
     }
     // ---- homogeneity under power-of-two scaling
     for (auto& h : hom_catalogue()) {
